@@ -10,6 +10,7 @@ open H5V.Props.C14
 /-- the sub-tokenizer's registers are consistent -/
 structure CRSafe (cr : CharRefSt) : Prop where
   named : (cr.state = .named ∨ cr.state = .bogusName) → cr.nameBuf ≠ none
+  matchState : cr.nameMatch ≠ none → cr.state = .named
   matched : ∀ c1 c2, cr.nameMatch = some (c1, c2) →
     ∃ nb, cr.nameBuf = some nb ∧ 0 < cr.nameLen ∧ cr.nameLen ≤ nb.length ∧
       isValidScalar c1 = true ∧ isValidScalar c2 = true
@@ -99,10 +100,8 @@ theorem namedDecision_ok (m : Mach) (cr : CharRefSt) (nb : Str) (c1 c2 : Nat)
   simp only [hne, ↓reduceIte]
   have hidx : cr.nameLen - 1 < nb.length := by omega
   rw [List.getElem?_eq_getElem hidx]
-  dsimp only
-  split
-  · exact ⟨_, rfl⟩
-  · simp [hv.1, hv.2]
+  simp only [hv.1, hv.2, Bool.and_self, Bool.not_true, Bool.false_eq_true, ↓reduceIte]
+  (repeat' split) <;> exact ⟨_, rfl⟩
 
 theorem finishNamed_ok (o : Opts) (m : Mach) (inp : Str) (cr : CharRefSt) (ec : Option Char)
     (hs : CRSafe cr) (hnb : cr.nameBuf ≠ none) :
@@ -115,9 +114,7 @@ theorem finishNamed_ok (o : Opts) (m : Mach) (inp : Str) (cr : CharRefSt) (ec : 
     cases hm : cr.nameMatch with
     | none =>
       dsimp only
-      split
-      · exact ⟨_, rfl⟩
-      · exact ⟨_, rfl⟩
+      (repeat' split) <;> exact ⟨_, rfl⟩
     | some mt =>
       obtain ⟨c1, c2⟩ := mt
       obtain ⟨nb', hnb', h1, h2, hv1, hv2⟩ := hs.matched c1 c2 hm
@@ -131,106 +128,408 @@ theorem finishNamed_ok (o : Opts) (m : Mach) (inp : Str) (cr : CharRefSt) (ec : 
       | none => exact ⟨_, rfl⟩
       | some v => obtain ⟨a, b⟩ := v; exact ⟨_, rfl⟩
 
+/-- `finish_named` either finishes the reference, or (no match yet, alphanumeric end character)
+switches to the bogus-name state keeping every register else -/
+theorem finishNamed_progress (o : Opts) (m : Mach) (inp : Str) (cr : CharRefSt) (ec : Option Char)
+    (m1 : Mach) (i1 : Str) (cr1 : CharRefSt) (st : CRStatus)
+    (h : finishNamed o m inp cr ec = .ok (m1, i1, cr1, st)) :
+    (∃ chars, st = .done chars) ∨ (cr1 = { cr with state := .bogusName } ∧ cr.nameMatch = none) := by
+  unfold finishNamed at h
+  repeat' split at h
+  all_goals
+    first
+      | (simp at h; done)
+      | (simp only [Except.ok.injEq, Prod.mk.injEq] at h
+         obtain ⟨_, _, h3, h4⟩ := h
+         first
+           | exact Or.inl ⟨_, h4.symm⟩
+           | (right; exact ⟨h3.symm, by assumption⟩))
+      | (dsimp only at h
+         split at h
+         · simp only [Except.ok.injEq, Prod.mk.injEq] at h
+           obtain ⟨_, _, h3, h4⟩ := h
+           right; exact ⟨h3.symm, by assumption⟩
+         · simp only [Except.ok.injEq, Prod.mk.injEq] at h
+           exact Or.inl ⟨_, h.2.2.2.symm⟩)
+
+theorem CRSafe.with_nameBuf {cr : CharRefSt} (hs : CRSafe cr) (nb : Str) (c : Char)
+    (hb : cr.nameBuf = some nb) : CRSafe { cr with nameBuf := some (nb ++ [c]) } where
+  named := fun _ => by simp
+  matchState := fun h => hs.matchState h
+  matched := fun c1 c2 hm => by
+    obtain ⟨nb', hnb', h1, h2, hv⟩ := hs.matched c1 c2 hm
+    rw [hb] at hnb'; simp only [Option.some.injEq] at hnb'; subst hnb'
+    exact ⟨nb ++ [c], rfl, h1, by simp; omega, hv⟩
+
 /-- a char-ref step from consistent registers never panics, and leaves consistent registers
 unless it finishes the reference -/
 theorem crStep_safe (o : Opts) (m : Mach) (inp : Str) (cr : CharRefSt) (hs : CRSafe cr) :
     ∃ m1 i1 cr1 st, crStep o m inp cr = .ok (m1, i1, cr1, st) ∧ ((∀ chars, st ≠ .done chars) → CRSafe cr1) := by
+  have hnomatch : cr.state ≠ .named → cr.nameMatch = none := by
+    intro hne
+    cases hm : cr.nameMatch with
+    | none => rfl
+    | some v => exact absurd (hs.matchState (by simp [hm])) hne
   unfold crStep
   cases hpk : peek m inp with
   | none => exact ⟨_, _, _, _, rfl, fun _ => hs⟩
   | some c =>
     dsimp only
-    cases hst : cr.state with
-    | begin =>
-      dsimp only
+    split
+    · -- begin
+      rename_i hst
+      have hnm := hnomatch (by rw [hst]; simp)
       split
-      · refine ⟨_, _, _, _, rfl, fun _ => ⟨fun _ => by simp, fun c1 c2 hm => ?_⟩⟩
-        simp only at hm
-        obtain ⟨nb, hnb, _⟩ := hs.matched c1 c2 hm
-        exact absurd hnb (by
-          intro h; have := hs.matched c1 c2 hm; simp_all)
+      · exact ⟨_, _, _, _, rfl, fun _ => ⟨fun _ => by simp, fun h => by simp [hnm] at h,
+          fun c1 c2 hm => by simp [hnm] at hm⟩⟩
       · split
-        · exact ⟨_, _, _, _, rfl, fun _ => ⟨fun h => by simp at h, fun c1 c2 hm => hs.matched c1 c2 hm⟩⟩
+        · exact ⟨_, _, _, _, rfl, fun _ => ⟨fun h => by simp at h, fun h => by simp [hnm] at h,
+            fun c1 c2 hm => by simp [hnm] at hm⟩⟩
         · exact ⟨_, _, _, _, rfl, fun h => absurd rfl (h [])⟩
-    | octothorpe =>
-      dsimp only
+    · -- octothorpe
+      rename_i hst
+      have hnm := hnomatch (by rw [hst]; simp)
+      split <;>
+        exact ⟨_, _, _, _, rfl, fun _ => ⟨fun h => by simp at h, fun h => by simp [hnm] at h,
+          fun c1 c2 hm => by simp [hnm] at hm⟩⟩
+    · -- numeric
+      rename_i base hst
+      have hnm := hnomatch (by rw [hst]; simp)
       split
-      · exact ⟨_, _, _, _, rfl, fun _ => ⟨fun h => by simp at h, fun c1 c2 hm => hs.matched c1 c2 hm⟩⟩
-      · exact ⟨_, _, _, _, rfl, fun _ => ⟨fun h => by simp at h, fun c1 c2 hm => hs.matched c1 c2 hm⟩⟩
-    | numeric base =>
-      dsimp only
-      split
-      · exact ⟨_, _, _, _, rfl, fun _ => ⟨fun h => by simp [hst] at h, fun c1 c2 hm => hs.matched c1 c2 hm⟩⟩
+      · exact ⟨_, _, _, _, rfl, fun _ => ⟨fun h => by simp [hst] at h, fun h => by simp [hnm] at h,
+          fun c1 c2 hm => by simp [hnm] at hm⟩⟩
       · split
         · exact ⟨_, _, _, _, rfl, fun h => absurd rfl (h [])⟩
-        · exact ⟨_, _, _, _, rfl, fun _ => ⟨fun h => by simp at h, fun c1 c2 hm => hs.matched c1 c2 hm⟩⟩
-    | numericSemicolon =>
-      dsimp only
+        · exact ⟨_, _, _, _, rfl, fun _ => ⟨fun h => by simp at h, fun h => by simp [hnm] at h,
+            fun c1 c2 hm => by simp [hnm] at hm⟩⟩
+    · -- numericSemicolon
       split
       · obtain ⟨m1, c', h'⟩ := finishNumericStatus_ok o (discardChar m inp).1 (discardChar m inp).2 cr
         exact ⟨_, _, _, _, h', fun h => absurd rfl (h [c'])⟩
       · obtain ⟨m1, c', h'⟩ := finishNumericStatus_ok o
           (emitErr m "Semicolon missing after numeric character reference") inp cr
         exact ⟨_, _, _, _, h', fun h => absurd rfl (h [c'])⟩
-    | named =>
-      dsimp only
+    · -- named
+      rename_i hst
       cases hb : cr.nameBuf with
       | none => exact absurd hb (hs.named (Or.inl hst))
       | some nb =>
         dsimp only
+        have hs' := hs.with_nameBuf nb c hb
         cases hl : entityLookup (nb ++ [c]) with
         | none =>
           dsimp only
-          have hs' : CRSafe { cr with nameBuf := some (nb ++ [c]) } :=
-            ⟨fun _ => by simp, fun c1 c2 hm => by
-              obtain ⟨nb', hnb', h1, h2, hv⟩ := hs.matched c1 c2 hm
-              rw [hb] at hnb'; simp only [Option.some.injEq] at hnb'; subst hnb'
-              exact ⟨nb ++ [c], rfl, h1, by simp; omega, hv⟩⟩
           obtain ⟨r, hr⟩ := finishNamed_ok o (discardChar m inp).1 (discardChar m inp).2 _ (some c) hs' (by simp)
           obtain ⟨m1, i1, cr1, st⟩ := r
           refine ⟨m1, i1, cr1, st, hr, fun hnd => ?_⟩
-          -- finish_named answers Progress only when it switches to bogusName, keeping the buffer
-          unfold finishNamed at hr
-          simp only at hr
-          split at hr
-          · dsimp only at hr
-            split at hr
-            · simp only [Except.ok.injEq, Prod.mk.injEq] at hr
-              obtain ⟨_, _, h3, _⟩ := hr
-              subst h3
-              exact ⟨fun _ => by simp, fun c1 c2 hm => by simp_all⟩
-            · simp only [Except.ok.injEq, Prod.mk.injEq] at hr
-              exact absurd hr.2.2.2.symm (hnd [])
-          · split at hr
-            · simp at hr
-            · simp only [Except.ok.injEq, Prod.mk.injEq] at hr
-              exact absurd hr.2.2.2.symm (hnd [])
-            · simp only [Except.ok.injEq, Prod.mk.injEq] at hr
-              exact absurd hr.2.2.2.symm (hnd _)
+          rcases finishNamed_progress o _ _ _ _ m1 i1 cr1 st hr with ⟨chars, hd⟩ | ⟨hcr1, hnm⟩
+          · exact absurd hd (hnd chars)
+          · subst hcr1
+            exact ⟨fun _ => by simp, fun h => by simp at hnm; simp [hnm] at h,
+              fun c1 c2 hm => by simp at hnm hm; simp [hnm] at hm⟩
         | some mt =>
           dsimp only
           split
           · rename_i h0
             have hv := entityLookup_valid (nb ++ [c]) mt hl h0
-            refine ⟨_, _, _, _, rfl, fun _ => ⟨fun _ => by simp, fun c1 c2 hm => ?_⟩⟩
+            refine ⟨_, _, _, _, rfl, fun _ => ⟨fun _ => by simp, fun _ => by simpa using hst, fun c1 c2 hm => ?_⟩⟩
             simp only [Option.some.injEq] at hm
             subst hm
             exact ⟨nb ++ [c], rfl, by simp, by simp, hv⟩
-          · refine ⟨_, _, _, _, rfl, fun _ => ⟨fun _ => by simp, fun c1 c2 hm => ?_⟩⟩
-            obtain ⟨nb', hnb', h1, h2, hv⟩ := hs.matched c1 c2 hm
-            rw [hb] at hnb'; simp only [Option.some.injEq] at hnb'; subst hnb'
-            exact ⟨nb ++ [c], rfl, h1, by simp; omega, hv⟩
-    | bogusName =>
-      dsimp only
+          · exact ⟨_, _, _, _, rfl, fun _ => hs'⟩
+    · -- bogusName
+      rename_i hst
       cases hb : cr.nameBuf with
       | none => exact absurd hb (hs.named (Or.inr hst))
       | some nb =>
         dsimp only
         split
-        · refine ⟨_, _, _, _, rfl, fun _ => ⟨fun _ => by simp, fun c1 c2 hm => ?_⟩⟩
-          obtain ⟨nb', hnb', h1, h2, hv⟩ := hs.matched c1 c2 hm
-          rw [hb] at hnb'; simp only [Option.some.injEq] at hnb'; subst hnb'
-          exact ⟨nb ++ [c], rfl, h1, by simp; omega, hv⟩
+        · exact ⟨_, _, _, _, rfl, fun _ => hs.with_nameBuf nb c hb⟩
         · exact ⟨_, _, _, _, rfl, fun h => absurd rfl (h [])⟩
+
+/-! ### the tables never panic when called from `step` -/
+
+theorem applySinkRes_no_panic (m : Mach) (r : SinkRes) (e : String) : (applySinkRes m r).2 ≠ .panic e := by
+  unfold applySinkRes; cases r <;> simp
+
+theorem emitTag_no_panic (pol : Pol) (s : State) (m : Mach) (e : String) : (emitTag pol s m).2 ≠ .panic e := by
+  unfold emitTag emitCurrentTag; exact applySinkRes_no_panic _ _ e
+
+theorem transChar_no_panic (o : Opts) (pol : Pol) (m : Mach) (c : Char) (e : String)
+    (hk : readKind m.state = .getChar ∨ m.state = .afterDoctypeName) :
+    (transChar o pol m c).2 ≠ .panic e := by
+  unfold transChar
+  split <;> (repeat' split) <;>
+    (have h1 := emitTag_no_panic pol .data m e
+     have h2 := emitTag_no_panic pol .data (clearTemp m) e
+     have h3 := emitTag_no_panic pol .data { m with tagSelfClosing := true } e
+     simp_all [readKind])
+
+theorem consumeCharRef_ok (m : Mach) (h : m.charRef = none) :
+    consumeCharRef m = (m.setCharRef (some { inAttr := isAttrValueState m.state }), .cont) := by
+  unfold consumeCharRef; simp [h, Mach.setCharRef]
+
+/-- `transSet` either leaves `char_ref_tokenizer` alone or starts a fresh one, in a state that can
+take its result and without changing the state; it never panics from a `pop_except_from` state -/
+theorem transSet_charRef (o : Opts) (pol : Pol) (m : Mach) (r : SetRes) (hcr : m.charRef = none)
+    (hk : readKind m.state = .popExcept ∨ readKind m.state = .dataSimd) :
+    (∀ e, (transSet o pol m r).2 ≠ .panic e) ∧
+    ((transSet o pol m r).1.charRef = none ∨
+      ((transSet o pol m r).1.charRef = some { inAttr := isAttrValueState m.state } ∧
+        crStateOk m.state ∧ (transSet o pol m r).1.state = m.state)) := by
+  have hc := consumeCharRef_ok m hcr
+  have h1 := fun e => emitTag_no_panic pol .data m e
+  have he := emitTag_charRef pol .data m
+  cases hs : m.state with
+  | data => cases r <;> simp only [transSet, hs] <;> (repeat' split) <;> simp_all [crStateOk, isAttrValueState]
+  | plaintext => cases r <;> simp only [transSet, hs] <;> (repeat' split) <;> simp_all [crStateOk, isAttrValueState]
+  | rawData k =>
+    cases k with
+    | scriptDataEscaped e =>
+      cases e <;> cases r <;> simp only [transSet, hs] <;> (repeat' split) <;> simp_all [crStateOk, isAttrValueState]
+    | _ => cases r <;> simp only [transSet, hs] <;> (repeat' split) <;> simp_all [crStateOk, isAttrValueState]
+  | attributeValue k =>
+    cases k <;> cases r <;> simp only [transSet, hs] <;> (repeat' split) <;> simp_all [crStateOk, isAttrValueState]
+  | _ => simp [hs, readKind] at hk
+
+/-! ### `step` never panics and preserves `Safe` -/
+
+theorem Safe.of_none {m : Mach} (h : m.charRef = none) : Safe m :=
+  ⟨fun cr hcr => by rw [h] at hcr; simp at hcr, fun cr hcr => by rw [h] at hcr; simp at hcr⟩
+
+theorem CRSafe.fresh (b : Bool) : CRSafe { inAttr := b } :=
+  ⟨fun h => by simp at h, fun h => by simp at h, fun c1 c2 h => by simp at h⟩
+
+theorem ofSig_panic (ms : Mach × Sig) (inp : Str) (e : String) (h : ofSig ms inp = .panic e) :
+    ms.2 = .panic e := by
+  unfold ofSig at h; split at h <;> simp_all
+
+theorem processCharRef_no_panic (m : Mach) (chars : Str) (h : crStateOk m.state) (e : String) :
+    (processCharRef m chars).2 ≠ .panic e := by
+  unfold processCharRef
+  dsimp only
+  rcases h with h | h | ⟨k, h⟩ <;> simp [h]
+
+theorem stepCharRef_safe (o : Opts) (m : Mach) (inp : Str) (cr : CharRefSt) (hs : Safe m)
+    (hcr : m.charRef = some cr) :
+    (∀ e, stepCharRef o m inp cr ≠ .panic e) ∧
+    (∀ m', (stepCharRef o m inp cr).mach? = some m' → Safe m') := by
+  obtain ⟨m1, i1, cr1, st, hc, hsafe⟩ := crStep_safe o m inp cr (hs.crRegs cr hcr)
+  have hw := crStep_weaker o m m1 inp i1 cr cr1 st hc
+  have hst : crStateOk m1.state := by rw [hw.1]; exact hs.crState cr hcr
+  unfold stepCharRef
+  rw [hc]
+  cases st with
+  | stuck =>
+    refine ⟨fun e => by simp, fun m' h => ?_⟩
+    simp only [R.mach?, Option.some.injEq] at h; subst h
+    exact ⟨fun cr' h' => by simpa using hst, fun cr' h' => by
+      simp only [setCharRef_charRef, Option.some.injEq] at h'; subst h'; exact hsafe (by simp)⟩
+  | progress =>
+    refine ⟨fun e => by simp, fun m' h => ?_⟩
+    simp only [R.mach?, Option.some.injEq] at h; subst h
+    exact ⟨fun cr' h' => by simpa using hst, fun cr' h' => by
+      simp only [setCharRef_charRef, Option.some.injEq] at h'; subst h'; exact hsafe (by simp)⟩
+  | done chars =>
+    refine ⟨fun e h => ?_, fun m' h => ?_⟩
+    · have h' : ofSig ((processCharRef m1 chars).1.setCharRef none, (processCharRef m1 chars).2) i1 = .panic e := h
+      exact processCharRef_no_panic m1 chars hst e
+        (ofSig_panic ((processCharRef m1 chars).1.setCharRef none, (processCharRef m1 chars).2) i1 e h')
+    · have := ofSig_mach _ _ _ h
+      subst this
+      exact Safe.of_none (by simp)
+
+theorem stepBav_charRef (o : Opts) (pol : Pol) (m : Mach) (inp : Str) :
+    (∀ e, stepBav o pol m inp ≠ .panic e) ∧
+    (∀ m', (stepBav o pol m inp).mach? = some m' → m'.charRef = m.charRef) := by
+  unfold stepBav
+  cases hpk : peek m inp with
+  | none => exact ⟨fun e => by simp, fun m' h => by simp only [R.mach?, Option.some.injEq] at h; rw [← h]⟩
+  | some c =>
+    dsimp only
+    have hm2 : (if m.ignoreLf = true then m.setIgnoreLf false else m).charRef = m.charRef := by
+      split <;> simp
+    generalize (if m.ignoreLf = true then m.setIgnoreLf false else m) = m2 at hm2
+    have hd := (discardChar_weaker m2 inp).2.2.2.2.2
+    constructor
+    · intro e
+      repeat' split
+      all_goals
+        first
+          | (simp; done)
+          | (intro h; exact emitTag_no_panic pol .data _ e (ofSig_panic _ _ e h))
+    · intro m' h
+      repeat' split at h
+      all_goals
+        first
+          | (simp only [R.mach?, Option.some.injEq] at h
+             subst h
+             first
+               | (simp [hd, hm2]; done)
+               | (rename_i hgc; have := (getChar_fields o m2 _ inp _ _ hgc).2.2.2.1; rw [this, hm2])
+               | (rename_i hgc
+                  obtain ⟨_, _, g3⟩ := getChar_none o m2 _ inp _ hgc
+                  rcases g3 with ⟨_, g4⟩ | ⟨_, _, g4⟩ <;> subst g4 <;> simp [hm2]))
+          | (have := ofSig_mach _ _ _ h
+             subst this
+             simp [hd, hm2])
+
+theorem stepMdo_charRef (o : Opts) (pol : Pol) (m : Mach) (inp : Str) :
+    (∀ e, stepMdo o pol m inp ≠ .panic e) ∧
+    (∀ m', (stepMdo o pol m inp).mach? = some m' → m'.charRef = m.charRef) := by
+  unfold stepMdo
+  cases h1 : eat m inp kwDashDash eqExact with
+  | mk b1 r1 =>
+    obtain ⟨m1, i1⟩ := r1
+    have f1 := (eat_fields m m1 inp i1 _ _ b1 h1).2.1
+    cases h2 : eat m1 i1 kwDoctype eqCi with
+    | mk b2 r2 =>
+      obtain ⟨m2, i2⟩ := r2
+      have f2 := (eat_fields m1 m2 i1 i2 _ _ b2 h2).2.1
+      cases h3 : eat m2 i2 kwCdata eqExact with
+      | mk b3 r3 =>
+        obtain ⟨m3, i3⟩ := r3
+        have f3 := (eat_fields m2 m3 i2 i3 _ _ b3 h3).2.1
+        constructor
+        · intro e
+          repeat' split
+          all_goals simp
+        · intro m' h
+          repeat' split at h
+          all_goals
+            (simp only [R.mach?, Option.some.injEq] at h
+             subst h
+             simp_all)
+
+theorem stepAdn_charRef (o : Opts) (pol : Pol) (m : Mach) (inp : Str) (hs : m.state = .afterDoctypeName) :
+    (∀ e, stepAdn o pol m inp ≠ .panic e) ∧
+    (∀ m', (stepAdn o pol m inp).mach? = some m' → m'.charRef = m.charRef) := by
+  unfold stepAdn
+  cases h1 : eat m inp kwPublic eqCi with
+  | mk b1 r1 =>
+    obtain ⟨m1, i1⟩ := r1
+    have f1 := eat_fields m m1 inp i1 _ _ b1 h1
+    cases b1 with
+    | none => exact ⟨fun e => by simp, fun m' h => by simp only [R.mach?, Option.some.injEq] at h; rw [← h, f1.2.1]⟩
+    | some b1 =>
+      cases b1 with
+      | true => exact ⟨fun e => by simp, fun m' h => by simp only [R.mach?, Option.some.injEq] at h; rw [← h]; simp [f1.2.1]⟩
+      | false =>
+        dsimp only
+        cases h2 : eat m1 i1 kwSystem eqCi with
+        | mk b2 r2 =>
+          obtain ⟨m2, i2⟩ := r2
+          have f2 := eat_fields m1 m2 i1 i2 _ _ b2 h2
+          cases b2 with
+          | none => exact ⟨fun e => by simp, fun m' h => by simp only [R.mach?, Option.some.injEq] at h; rw [← h, f2.2.1, f1.2.1]⟩
+          | some b2 =>
+            cases b2 with
+            | true => exact ⟨fun e => by simp, fun m' h => by simp only [R.mach?, Option.some.injEq] at h; rw [← h]; simp [f2.2.1, f1.2.1]⟩
+            | false =>
+              dsimp only
+              cases hgc : getChar o m2 i2 with
+              | mk c3 r3 =>
+                obtain ⟨m3, i3⟩ := r3
+                cases c3 with
+                | none =>
+                  obtain ⟨_, _, g3⟩ := getChar_none o m2 m3 i2 i3 hgc
+                  refine ⟨fun e => by simp, fun m' h => ?_⟩
+                  simp only [R.mach?, Option.some.injEq] at h
+                  subst h
+                  rcases g3 with ⟨_, g4⟩ | ⟨_, _, g4⟩ <;> subst g4 <;> simp [f2.2.1, f1.2.1]
+                | some c3 =>
+                  have g := getChar_fields o m2 m3 i2 i3 c3 hgc
+                  refine ⟨fun e h => ?_, fun m' h => ?_⟩
+                  · exact transChar_no_panic o pol m3 c3 e (Or.inr (by rw [g.1, f2.1, f1.1, hs])) (ofSig_panic _ _ e h)
+                  · have := ofSig_mach _ _ _ h
+                    subst this
+                    rw [transChar_charRef, g.2.2.2.1, f2.2.1, f1.2.1]
+
+theorem step_safe (o : Opts) (pol : Pol) (m : Mach) (inp : Str) (hs : Safe m) :
+    (∀ e, step o pol m inp ≠ .panic e) ∧ (∀ m', (step o pol m inp).mach? = some m' → Safe m') := by
+  cases hcr : m.charRef with
+  | some cr =>
+    rw [step_kind_charRef o pol m inp cr hcr]
+    exact stepCharRef_safe o m inp cr hs hcr
+  | none =>
+    cases hrk : readKind m.state with
+    | getChar =>
+      rw [step_getChar o pol m inp hcr hrk]
+      cases hgc : getChar o m inp with
+      | mk c r =>
+        obtain ⟨m1, i1⟩ := r
+        cases c with
+        | none =>
+          obtain ⟨_, _, g3⟩ := getChar_none o m m1 inp i1 hgc
+          refine ⟨fun e => by simp [contChar], fun m' h => ?_⟩
+          simp only [contChar, R.mach?, Option.some.injEq] at h; subst h
+          rcases g3 with ⟨_, g4⟩ | ⟨_, _, g4⟩ <;> subst g4
+          · exact hs
+          · exact Safe.of_none (by simp [hcr])
+        | some c =>
+          obtain ⟨g1, _, _, g4, _⟩ := getChar_fields o m m1 inp i1 c hgc
+          refine ⟨fun e h => ?_, fun m' h => ?_⟩
+          · exact transChar_no_panic o pol m1 c e (Or.inl (by rw [g1]; exact hrk)) (ofSig_panic _ _ e h)
+          · have := ofSig_mach _ _ _ h
+            subst this
+            exact Safe.of_none (by rw [transChar_charRef, g4, hcr])
+    | popExcept =>
+      rw [step_popExcept o pol m inp hcr hrk]
+      cases hgc : popExceptFrom o (setOf m.state) m inp with
+      | mk c r =>
+        obtain ⟨m1, i1⟩ := r
+        cases c with
+        | none =>
+          obtain ⟨_, _, g3⟩ := popExceptFrom_none o _ m m1 inp i1 hgc
+          refine ⟨fun e => by simp [contSet], fun m' h => ?_⟩
+          simp only [contSet, R.mach?, Option.some.injEq] at h; subst h
+          rcases g3 with ⟨_, g4⟩ | ⟨_, _, g4⟩ <;> subst g4
+          · exact hs
+          · exact Safe.of_none (by simp [hcr])
+        | some c =>
+          obtain ⟨g1, _, _, g4, _⟩ := popExceptFrom_fields o _ m m1 inp i1 c hgc
+          obtain ⟨hnp, hcase⟩ := transSet_charRef o pol m1 c (by rw [g4, hcr]) (Or.inl (by rw [g1]; exact hrk))
+          refine ⟨fun e h => hnp e (ofSig_panic _ _ e h), fun m' h => ?_⟩
+          have := ofSig_mach _ _ _ h
+          subst this
+          rcases hcase with hn | ⟨hsome, hok, hst⟩
+          · exact Safe.of_none hn
+          · exact ⟨fun cr' h' => by rw [hst]; exact hok, fun cr' h' => by
+              rw [hsome] at h'; simp only [Option.some.injEq] at h'; subst h'; exact CRSafe.fresh _⟩
+    | dataSimd =>
+      rw [step_dataSimd o pol m inp hcr hrk]
+      cases hgc : readData o m inp with
+      | mk c r =>
+        obtain ⟨m1, i1⟩ := r
+        cases c with
+        | none =>
+          obtain ⟨_, _, g3⟩ := readData_none o m m1 inp i1 hgc
+          refine ⟨fun e => by simp [contSet], fun m' h => ?_⟩
+          simp only [contSet, R.mach?, Option.some.injEq] at h; subst h
+          rcases g3 with ⟨_, g4⟩ | ⟨_, _, g4⟩ <;> subst g4
+          · exact hs
+          · exact Safe.of_none (by simp [hcr])
+        | some c =>
+          obtain ⟨g1, _, _, g4, _⟩ := readData_fields o m m1 inp i1 c hgc
+          obtain ⟨hnp, hcase⟩ := transSet_charRef o pol m1 c (by rw [g4, hcr]) (Or.inr (by rw [g1]; exact hrk))
+          refine ⟨fun e h => hnp e (ofSig_panic _ _ e h), fun m' h => ?_⟩
+          have := ofSig_mach _ _ _ h
+          subst this
+          rcases hcase with hn | ⟨hsome, hok, hst⟩
+          · exact Safe.of_none hn
+          · exact ⟨fun cr' h' => by rw [hst]; exact hok, fun cr' h' => by
+              rw [hsome] at h'; simp only [Option.some.injEq] at h'; subst h'; exact CRSafe.fresh _⟩
+    | peekBav =>
+      rw [step_kind_bav o pol m inp hcr hrk]
+      obtain ⟨h1, h2⟩ := stepBav_charRef o pol m inp
+      exact ⟨h1, fun m' h => Safe.of_none (by rw [h2 m' h, hcr])⟩
+    | eatMdo =>
+      rw [step_kind_mdo o pol m inp hcr hrk]
+      obtain ⟨h1, h2⟩ := stepMdo_charRef o pol m inp
+      exact ⟨h1, fun m' h => Safe.of_none (by rw [h2 m' h, hcr])⟩
+    | eatAdn =>
+      rw [step_kind_adn o pol m inp hcr hrk]
+      obtain ⟨h1, h2⟩ := stepAdn_charRef o pol m inp (readKind_adn hrk)
+      exact ⟨h1, fun m' h => Safe.of_none (by rw [h2 m' h, hcr])⟩
 
 end H5V.Model.HtmlTok
